@@ -56,9 +56,11 @@ PROPS = {
     ),
     "C10": dict(
         # Props.GoSubscribe: the model's stop-position table = the translated body of partition.getStopOffset
-        lean_modules=["Liftbridge.Props.C10", "Liftbridge.Props.GoSubscribe"],
+        # Props.GoTimestamps: the model's timestamp look-ups = the translated bodies of EarliestOffsetAfterTimestamp / LatestOffsetBeforeTimestamp
+        lean_modules=["Liftbridge.Props.C10", "Liftbridge.Props.GoSubscribe", "Liftbridge.Props.GoTimestamps"],
         gen_sources=LOG_SOURCES + ["server/partition.go:partition.getStopOffset", "server/partition.go:gomini:partition.getStopOffset", "server/partition.go:partition.Subscribe",
-                                   "server/partition.go:partition.newSubscribeLoop", "server/commitlog/commitlog.go:commitLog.EarliestOffsetAfterTimestamp"],
+                                   "server/partition.go:partition.newSubscribeLoop", "server/commitlog/commitlog.go:commitLog.EarliestOffsetAfterTimestamp", "server/commitlog/commitlog.go:gomini:commitLog.EarliestOffsetAfterTimestamp",
+                                   "server/commitlog/commitlog.go:gomini:commitLog.LatestOffsetBeforeTimestamp"],
         runs=[dict(go_pkg="./server/commitlog", test="TestVerifC10Log"), dict(go_pkg="./server", test="TestVerifC10")],
         level="proof",
         assumptions=LOG_ASSUME,
@@ -188,7 +190,8 @@ PROPS = {
         timeout={"quick": 900, "thorough": 5400},
     ),
     "C07": dict(
-        lean_modules=["Liftbridge.Props.C07", "Liftbridge.Props.GoFailover"],
+        # Props.GoPartition (go_RemoveFromISR / go_AddToISR): the persisted in-sync list, which a controller restored from a snapshot elects from, is exactly the in-sync set
+        lean_modules=["Liftbridge.Props.C07", "Liftbridge.Props.GoFailover", "Liftbridge.Props.GoPartition"],
         gen_sources=["server/metadata.go", "server/failover.go", "server/fsm.go", "server/raft.go",
                      "server/partition.go:partition.SetLeader", "server/partition.go:partition.RemoveFromISR", "server/partition.go:partition.AddToISR",
                      "server/partition.go:gomini:partition.inISR", "server/partition.go:gomini:partition.ISRSize", "server/partition.go:gomini:partition.GetLeader"],
@@ -244,7 +247,7 @@ PROPS = {
     "C02": dict(
         # Props.GoEpochCache: the epoch-cache functions of the model = the translated bodies of leader_epoch_cache.go (GoMini)
         # Props.GoPartition: the reconciliation branches of the protocol model = the translated bodies of truncateUncommitted / truncateToHW
-        lean_modules=["Liftbridge.Props.C02", "Liftbridge.Props.GoEpochCache", "Liftbridge.Props.GoPartition"],
+        lean_modules=["Liftbridge.Props.C02", "Liftbridge.Props.GoEpochCache", "Liftbridge.Props.GoPartition", "Liftbridge.Props.GoCommit"],
         gen_sources=["server/partition.go", "server/replicator.go", "server/metadata.go", "server/commitlog/commitlog.go", "server/commitlog/leader_epoch_cache.go"],
         runs=[dict(go_pkg="./server/commitlog", test="TestVerifC02"), dict(go_pkg="./server", test="TestVerifC02ISR"), dict(go_pkg="./server", test="TestVerifC02Terms"),
               dict(go_pkg="./server", test="TestVerifC02Cluster"), dict(go_pkg="./server", test="TestVerifC02Reconcile"), dict(go_pkg="./server", test="TestVerifC02IsrPersist"),
@@ -265,7 +268,8 @@ PROPS = {
     ),
     "C04": dict(
         # Props.GoPartition: a replica (re-)added to the ISR starts with recorded offset -1 (go_AddToISR), the persisted set = the runtime set
-        lean_modules=["Liftbridge.Props.C04", "Liftbridge.Props.C04Pipeline", "Liftbridge.Props.GoPartition"],
+        # Props.GoCommit: the minimum the commit loop sets the HW to (min, updateLatestOffset, updateISRLatestOffset) = the model's goMin / updateOffset
+        lean_modules=["Liftbridge.Props.C04", "Liftbridge.Props.C04Pipeline", "Liftbridge.Props.GoPartition", "Liftbridge.Props.GoCommit"],
         gen_sources=["server/partition.go", "server/replicator.go", "server/metadata.go", "server/commitlog/commitlog.go", "server/commitlog/leader_epoch_cache.go"],
         runs=[dict(go_pkg="./server", test="TestVerifC04Pipeline"),
               dict(go_pkg="./server/commitlog", test="TestVerifC04"), dict(go_pkg="./server", test="TestVerifC04Cluster"),
@@ -306,7 +310,7 @@ PROPS = {
         timeout={"quick": 900, "thorough": 5400},
     ),
     "C03": dict(
-        lean_modules=["Liftbridge.Props.C03", "Liftbridge.Props.GoHW"],
+        lean_modules=["Liftbridge.Props.C03", "Liftbridge.Props.GoHW", "Liftbridge.Props.GoHWPos"],
         gen_sources=["server/commitlog/commitlog.go", "server/commitlog/reader.go", "server/commitlog/segment.go",
                      "server/commitlog/util.go:findSegment:", "server/commitlog/util.go:findSegmentByBaseOffset:", "server/commitlog/util.go:findSegmentContains:",
                      "server/partition.go:partition.handleReplicationResponse", "server/ (cannot list)"],
